@@ -515,6 +515,8 @@ func runC05(cfg *vh.Config) error {
 	fileSeen := vh.Distinct{}
 	fileToks := map[string]int{}
 	maxFileToks := map[string]int{"repo-proto": cfg.Scale(24000, 400000), "compiled": cfg.Scale(30000, 600000), "hand-built": 100000}
+	pendingFiles := map[string][]func(){}
+	var emitFile func(stream string, fd protoreflect.FileDescriptor, out rtOut, lost bool, where string, input any)
 	addFile := func(stream string, fd protoreflect.FileDescriptor, out rtOut, fails []rtFailure, where string, input any) {
 		lost := false
 		for _, f := range fails {
@@ -531,6 +533,13 @@ func runC05(cfg *vh.Config) error {
 		fileSeen.Add(out.Txt1)
 		orders.file(fd)
 		orders.file(out.Fd2)
+		// which files get the full check within the token budget is drawn per run (pendingFiles, below), so that over
+		// the seeds every printed file is covered; the pinned hand-built cases always are
+		pendingFiles[stream] = append(pendingFiles[stream], func() {
+			emitFile(stream, fd, out, lost, where, input)
+		})
+	}
+	emitFile = func(stream string, fd protoreflect.FileDescriptor, out rtOut, lost bool, where string, input any) {
 		if fileToks[stream] >= maxFileToks[stream] {
 			res.Count("file-layer:over the token budget of this tier")
 			return
@@ -939,6 +948,17 @@ func runC05(cfg *vh.Config) error {
 		Check:  "c05_file_check",
 	}
 	const perFile = 6
+	pick := cfg.R.Fork("c05-file-pick")
+	for _, stream := range []string{"hand-built", "repo-proto", "compiled"} {
+		pend := pendingFiles[stream]
+		for i := len(pend) - 1; i > 0; i-- { // Fisher-Yates with the run's PRNG
+			j := pick.Intn(i + 1)
+			pend[i], pend[j] = pend[j], pend[i]
+		}
+		for _, f := range pend {
+			f()
+		}
+	}
 	for i, c := range fileCases {
 		caseNo++
 		res.Count("file")
